@@ -6,6 +6,7 @@
 -/
 import PjVerif.Lemmas.SchedC06
 import PjVerif.Props.Witness
+import PjVerif.Lemmas.CalcSrc
 namespace Pj
 
 /-- every member of the result has a start and an end, both schedulers -/
@@ -78,5 +79,38 @@ theorem C06_clock_fixed_start_fails :
     decide +kernel
   · apply map_ne_of_proj _ _ _ (fun l => l.map (fun x => x.day))
     decide +kernel
+
+/-- the translated `ForwardScheduler.calc` (validation, loop check, future-end check, clone, prepare, the pass over the roots; every
+    call runs the translated source of its callee down to calendar.py) is the model's `forwardCalc`, errors included - unless the model
+    ends in RecursionError (excluded for inputs that pass the pre-checks, C14).  `mem` = `WBS.tasks`, `w` the WBS object, `B0` the
+    store of list/set containers, `hms` the effective-milestone encoding. -/
+theorem C06_source_calc_forward (env : Env) (ms : Uid → Bool) (mem : List Uid) (w : Nat)
+    (hmem : members env = some mem)
+    (hms : ∀ u, (env.info u).milestone = (ms u && (env.info u).children.isEmpty))
+    (fuel wfuel pfuel : Nat) (hf : env.n + 2 ≤ fuel) (hw : Extracted.fwdShiftMaxSteps < wfuel) (hp : env.n + 1 ≤ pfuel)
+    (f0 : Uid → Fields) (res0 : List (Option Nat × Cal)) (rows0 : List Row) (done0 : List Uid) (B0 : List (List PyLite.Atom))
+    (hne : forwardCalc env f0 res0 ≠ .error (.crash .recursion)) :
+    match forwardCalc env f0 res0 with
+    | .ok out => ∃ σ B, CalcSrc.interpFwdCalc env mem w fuel wfuel (PassSrc.calRef res0) pfuel
+          (CalcSrc.wb (PassSrc.encS env ms { f := f0, rows := rows0, done := done0, res := res0, reads := 0 }) B0) =
+          .ok (.atom (.ref w), CalcSrc.wb (PassSrc.encS env ms σ) B) ∧ out = { f := σ.f, rows := σ.rows, res := σ.res }
+    | .error e => CalcSrc.interpFwdCalc env mem w fuel wfuel (PassSrc.calRef res0) pfuel
+          (CalcSrc.wb (PassSrc.encS env ms { f := f0, rows := rows0, done := done0, res := res0, reads := 0 }) B0) = .error e :=
+  CalcSrc.interpFwdCalc_eq env ms mem w hmem hms fuel wfuel pfuel hf hw hp f0 res0 rows0 done0 B0 hne
+
+/-- the same for `BackwardScheduler.calc` and `backwardCalc` -/
+theorem C06_source_calc_backward (env : Env) (ms : Uid → Bool) (mem : List Uid) (w : Nat)
+    (hmem : members env = some mem)
+    (hms : ∀ u, (env.info u).milestone = (ms u && (env.info u).children.isEmpty))
+    (fuel wfuel pfuel : Nat) (hf : env.n + 2 ≤ fuel) (hw : Extracted.bwdShiftMaxSteps < wfuel) (hp : env.n + 1 ≤ pfuel)
+    (f0 : Uid → Fields) (res0 : List (Option Nat × Cal)) (rows0 : List Row) (done0 : List Uid) (B0 : List (List PyLite.Atom))
+    (hne : backwardCalc env f0 res0 ≠ .error (.crash .recursion)) :
+    match backwardCalc env f0 res0 with
+    | .ok out => ∃ σ B, CalcSrc.interpBwdCalc env mem w fuel wfuel (PassSrc.calRef res0) pfuel
+          (CalcSrc.wb (PassSrcBwd.encSB env ms { f := f0, rows := rows0, done := done0, res := res0, reads := 0 }) B0) =
+          .ok (.atom (.ref w), CalcSrc.wb (PassSrcBwd.encSB env ms σ) B) ∧ out = { f := σ.f, rows := σ.rows, res := σ.res }
+    | .error e => CalcSrc.interpBwdCalc env mem w fuel wfuel (PassSrc.calRef res0) pfuel
+          (CalcSrc.wb (PassSrcBwd.encSB env ms { f := f0, rows := rows0, done := done0, res := res0, reads := 0 }) B0) = .error e :=
+  CalcSrc.interpBwdCalc_eq env ms mem w hmem hms fuel wfuel pfuel hf hw hp f0 res0 rows0 done0 B0 hne
 
 end Pj
